@@ -218,6 +218,22 @@ CLAIMED = {
         "API at all); position/extent/unit length checks are scoped to tags with references, as in the property text; feature "
         "checks and warnings are outside the property's catalogue.",
         "DESIGN.md section 5 C14", TECH),
+    "C08": (
+        "Coq theorems over the tagging model (slice computation of Tag / MultiTag, unit scaling from the regenerated unit "
+        "tables, per-dimension index arithmetic of C07, DataView validity): for every descriptor kind, every position, extent, "
+        "unit and stop rule, a slice a:b returned for an axis holds EXACTLY the stored samples whose coordinate lies in "
+        "[start, stop] resp. [start, stop) with start = position*scaling, stop = start + extent*scaling (missing / "
+        "non-positive extent: the exact position; axes beyond the tag's position: whole); lifted to every axis of the data a "
+        "tag, a multi-tag row or a tagged feature returns; an invalid (empty) view or an out-of-bounds error has a reason - "
+        "some axis without a stored sample in the region, or a region containing a sample position beyond the stored ones - "
+        "never other data; indexed / untagged features return entry i / everything. Hypothesis inherited from C07: positions "
+        "outside the float-tolerance band of a sample. Tie: generated arrays (rank 1-3, all descriptor mixes) holding their own "
+        "offsets, tags and multi-tags (1-D/2-D positions), regions on/between/outside samples, all prefix pairs of four SI "
+        "families, both stop rules, three feature link types; results compared with the model in Coq and with a model-free "
+        "oracle on exact rationals; the generator keeps every float product the implementation performs exact.",
+        "Trusted: Coq kernel; float arithmetic of the implementation outside the exactness filter is not modelled; the "
+        "isclose band is C07's known finding; h5py reads of the computed slices are C06.",
+        "DESIGN.md section 5 C08", TECH),
 }
 
 PENDING_REASON = ("check not built yet in this revision (work in progress: the property is meant to be decided by Coq "
